@@ -39,6 +39,10 @@ class ZTimeout(ZControl):
     pass
 
 
+class ZInfeasiblePrefix(ZControl):
+    """A scheduled alternative turned out to be infeasible (the solver's earlier `sat` was refuted twice)."""
+
+
 _E = None  # current engine
 
 
@@ -189,11 +193,28 @@ class SymNum:
     def __rsub__(self, o):
         return self._bin(o, lambda a, b: a - b, True)
 
+    @staticmethod
+    def _linear_mul(a, b):
+        """a * b kept linear: when both factors are non-constant one of them is concretised (case split over its
+        tiny range).  Nonlinear real/integer arithmetic is where SMT solvers are incomplete - z3's incremental mode was
+        measured to answer `sat` on such a query that a fresh solver refutes - so no product of two solver variables
+        ever reaches the solver."""
+        if not isinstance(a, z3.ExprRef) or not isinstance(b, z3.ExprRef):
+            return a * b
+        sa, sb = z3.simplify(a), z3.simplify(b)
+        ca = z3.is_int_value(sa) or z3.is_rational_value(sa)
+        cb = z3.is_int_value(sb) or z3.is_rational_value(sb)
+        if ca or cb:
+            return a * b
+        _E.stats["nonlinear_splits"] = _E.stats.get("nonlinear_splits", 0) + 1
+        v = _E.concretize(b)
+        return a * _num_to_z3(v)
+
     def __mul__(self, o):
-        return self._bin(o, lambda a, b: a * b)
+        return self._bin(o, self._linear_mul)
 
     def __rmul__(self, o):
-        return self._bin(o, lambda a, b: a * b, True)
+        return self._bin(o, self._linear_mul, True)
 
     def _truediv(self, a, b):
         if not isinstance(a, z3.ExprRef):
@@ -206,10 +227,12 @@ class SymNum:
         if z3.is_rational_value(bs):
             if bs.numerator_as_long() == 0:
                 raise ZeroDivisionError("float division by zero")
-        else:
-            if _E.decide(b == 0):
-                raise ZeroDivisionError("float division by zero")
-        return a / b
+            return a / b
+        # non-constant divisor: concretise it (keeps the arithmetic linear)
+        v = _E.concretize(b)
+        if v == 0:
+            raise ZeroDivisionError("float division by zero")
+        return a / z3.RealVal(str(Fraction(v)))
 
     def __truediv__(self, o):
         return self._bin(o, self._truediv)
@@ -396,7 +419,20 @@ class Engine:
             if i == len(self.prefix) - 1:
                 r = self._check()
                 if r != z3.sat:
-                    raise ZNonDeterministic("scheduled prefix is %s" % r)
+                    # second opinion from a fresh, non-incremental solver over the same assertions
+                    fresh = z3.Solver()
+                    fresh.set("timeout", self.qt)
+                    for a_ in self.solver.assertions():
+                        fresh.add(a_)
+                    r2 = fresh.check()
+                    self.stats["solver_disagreements"] = self.stats.get("solver_disagreements", 0) + 1
+                    if r2 == z3.sat:
+                        self.model = fresh.model()
+                        return b
+                    if r2 == z3.unsat and r == z3.unsat:
+                        # the alternative was scheduled on a `sat` answer that two later checks refute: it does not exist
+                        raise ZInfeasiblePrefix()
+                    raise ZUnknown("scheduled prefix: %s / %s" % (r, r2))
                 self.model = self.solver.model()
             return b
         mv = z3.is_true(self.model.eval(cond, model_completion=True))
@@ -461,6 +497,9 @@ class Engine:
                     ok = fn(self.symvals())
                     if len(self.trace) < len(self.prefix):
                         raise ZNonDeterministic("path ended before its scheduled prefix")
+                except ZInfeasiblePrefix:
+                    self.stats["discarded_prefixes"] = self.stats.get("discarded_prefixes", 0) + 1
+                    continue
                 except ZTimeout:
                     return "timeout"
                 except ZUnknown as e:
